@@ -118,3 +118,18 @@ Proof.
   - apply mem_In. vm_compute. reflexivity.
   - intro H. apply mem_In in H. vm_compute in H. discriminate.
 Qed.
+
+(* ---- config.set: admin-only keys ---- *)
+Lemma admin_config_needs_admin_l ts dbg c key : admin_effect false ts dbg c key = true ->
+  exists r, role_of ts c = Some r /\ admin_rank <= r.
+Proof.
+  unfold admin_effect. destruct (handle ts dbg c "config.set" true (gate_admin_key key)) eqn:H; try discriminate.
+  intros Hk. unfold handler_admin_key in Hk. change (mem key config_admin_keys) with (gate_admin_key key) in Hk. rewrite Hk in H.
+  destruct (effect_implies_sufficient_role_l _ _ _ _ _ _ H) as [r [Hr Hle]]. exists r. split; [exact Hr|].
+  assert (E : required_role "config.set" true true = admin_rank) by (vm_compute; reflexivity). rewrite E in Hle. exact Hle.
+Qed.
+Lemma normalizing_handler_refuted_l :
+  normalize " Control.Auth_Token " = "control.auth_token" /\
+  admin_effect true true true (CPair 2) "Control.Auth_Token" = true /\ role_of true (CPair 2) = Some 2 /\ 2 < admin_rank /\
+  admin_effect false true true (CPair 2) "Control.Auth_Token" = false /\ admin_effect false true true CAdmin "control.auth_token" = true.
+Proof. vm_compute. repeat split; reflexivity. Qed.
